@@ -189,6 +189,16 @@ class _GeomEqRewrite(ast.NodeTransformer):
             return ast.copy_location(ast.parse('(s0, s1, s2)').body[0].value, node)
         if t == 'other.spatial_shape':
             return ast.copy_location(ast.parse('(o0, o1, o2)').body[0].value, node)
+        # the full array shape (spatial + one channel extent): not read by the pinned code; made available so
+        # that a comparison that looks at channels is translated (and breaks `geometryEqual_ignores_channels`)
+        if t == 'self.shape':
+            return ast.copy_location(ast.parse('(s0, s1, s2, c_self)').body[0].value, node)
+        if t == 'other.shape':
+            return ast.copy_location(ast.parse('(o0, o1, o2, c_other)').body[0].value, node)
+        if t == 'self.channel_shape':
+            return ast.copy_location(ast.parse('(c_self,)').body[0].value, node)
+        if t == 'other.channel_shape':
+            return ast.copy_location(ast.parse('(c_other,)').body[0].value, node)
         return node
 
     def visit_Call(self, node):
@@ -216,10 +226,12 @@ def build_geomeq(tree):
         body, 'geomEqualDecision',
         [('self_for', 'optstr'), ('other_for', 'optstr'),
          ('s0', 'int'), ('s1', 'int'), ('s2', 'int'), ('o0', 'int'), ('o1', 'int'), ('o2', 'int'),
+         ('c_self', 'int'), ('c_other', 'int'),
          ('self_cs', 'str'), ('other_cs', 'str'), ('tol', 'optrat'),
          ('affine_identical', 'bool'), ('affine_close', 'bool')], {},
         doc='`geometry_equal` (whole body).  Frame of reference UIDs and coordinate systems are strings compared '
-            'for equality, spatial shapes are triples; `affine_identical` stands for '
+            'for equality, spatial shapes are triples, `c_self`/`c_other` the extent of a channel dimension (`shape` = '
+            'spatial shape + channel extent); `affine_identical` stands for '
             '`np.array_equal(self._affine, other._affine)` and `affine_close` for '
             '`np.allclose(self._affine, other._affine, atol=tol)` (the two calls are matched textually).')
     return text, span_sha(strip_doc(fn.body))
